@@ -26,11 +26,24 @@ def prepare():
     boot.install_seams()
 
 
+_dimensionality = {}
+
+
+def dim_of(base_unit_str):
+    """Pint dimensionality of a base-unit string (information units are dimensionless for pint: bit = [])."""
+    from efootprint.constants.units import u
+    if base_unit_str not in _dimensionality:
+        _dimensionality[base_unit_str] = str(u.Quantity(1.0, base_unit_str).dimensionality)
+    return _dimensionality[base_unit_str]
+
+
 def base_form(v):
-    """('E',) | ('Q', dim, float) | ('H', dim, {ns: float})"""
+    """('E',) | ('Q', dimensionality, float, base unit) | ('H', dimensionality, {ns: float}, aware, base unit)"""
     c = S.canon(v)
     if c[0] == "H":
-        return ("H", c[1], {int(t): float(x) for t, x in zip(c[3], c[4])}, c[2])
+        return ("H", dim_of(c[1]), {int(t): float(x) for t, x in zip(c[3], c[4])}, c[2], c[1])
+    if c[0] == "Q":
+        return ("Q", dim_of(c[1]), c[2], c[1])
     return c
 
 
@@ -74,7 +87,8 @@ def evaluate(op, L, R):
             return ("E",)
         if L[0] == "E" or R[0] == "E":
             return None
-        dim, factor = combine_dims(L[1], R[1], op)
+        dim, factor = combine_dims(L[-1], R[-1], op)
+        dim = dim_of(dim)
         f = (lambda x, y: x * y) if op == "*" else (lambda x, y: x / y if y != 0 else float("nan"))
         if L[0] == "Q" and R[0] == "Q":
             return ("Q", dim, f(L[2], R[2]) * factor)
